@@ -78,6 +78,8 @@ pub struct FloatRun {
     pub outputs: Vec<(String, f64)>,
     pub assume_failed: bool,
     pub missing: Vec<String>,
+    /// every variable the program declared on this run: (name, lo, hi)
+    pub declared: Vec<(String, f64, f64)>,
 }
 thread_local! { pub static FRUN: RefCell<FloatRun> = RefCell::new(FloatRun::default()); }
 
@@ -96,6 +98,7 @@ macro_rules! float_logic {
             fn var(name: &str, lo: f64, hi: f64) -> Self {
                 FRUN.with(|r| {
                     let mut r = r.borrow_mut();
+                    if !r.declared.iter().any(|(n, _, _)| n == name) { r.declared.push((name.to_string(), lo, hi)); }
                     match r.inputs.get(name) {
                         Some(v) => { let v = *v; if !(v >= lo && v <= hi) { r.assume_failed = true; } v as $F }
                         None => { r.missing.push(name.to_string()); ((lo + hi) / 2.0) as $F }
